@@ -19,7 +19,8 @@ RULE = ("random walks on {whitespace, keep-chain, include-header, pdb-output, ap
         "drop-water pairs: run with the flag vs run on the file without water records (bytes). neutral pairs (PARSE): "
         "charged vs --neutraln / --neutralc. Non-trivial: pair whose outputs have >= 20 atoms; distinct = (option "
         "flipped, from/to value, force field, pipeline variant, structure seed)"
-        ' Round-2 additions: insertion codes in the option walks; big serials in the drop-water pairs; an output the reference tokenizer cannot read after an option flip is a violation.')
+        ' Round-2 additions: insertion codes in the option walks; big serials in the drop-water pairs; an output the reference tokenizer cannot read after an option flip is a violation.'
+        " Round-3/4 additions: water numbering that collides with the protein's (same chain, numbering restarts) in the drop-water pairs.")
 ASSUMPTIONS = ["'byte-identical' is judged on the numeric token text of the PQR atom lines (fixed columns or tokens)",
                "a terminus counts as 'actually neutralised' when the atoms of the two outputs show the lost amine "
                "hydrogen (N) or the gained HO (C)"]
